@@ -9,9 +9,9 @@ CONSTANTS
   NTr = 1
   AsIs_D1 = FALSE
   AsIs_D4 = FALSE
-  AsIs_D7 = TRUE
-  Scenarios = {1, 2, 3, 4}
-  GenLen = 2
+  AsIs_D7 = FALSE
+  Scenarios = {0, 1, 2, 3, 4}
+  GenLen = 3
 INVARIANT Linearizable
 INVARIANT LockDiscipline
 CHECK_DEADLOCK FALSE
